@@ -11,7 +11,7 @@ from common import Report, proof_stage, coq_eval_files, parse_nat_list
 import gencalc as G
 from gencalc import (Case, run_impl, run_std, use_kinds, no_close, same_log, same_val, canon_result, coq_case, coq_file,
                      ITER_TOOLS, AGG_TOOLS, Inj, InjBase)
-from gen_cases import draw_case, with_plan
+from gen_cases import draw_case, with_plan, exhaustive_cases
 
 CORPUS = common.CORPUS
 # tools whose CPython counterpart performs its uses in the same order (so that the k-th use corresponds)
@@ -319,6 +319,58 @@ def direct_probes(prop, rep):
     async def alist(it):
         return [x async for x in it]
     if prop == "C01":
+        # glue outside the modelled tools: chain.from_iterable, anext with default, plain iter, closing
+        import random as _r
+        rr = _r.Random(7)
+        for _ in range(40):
+            lists = [[rr.randrange(5) for _ in range(rr.randrange(0, 4))] for _ in range(rr.randrange(0, 4))]
+            both("chain.from_iterable %r" % (lists,), "chain:from_iterable",
+                 lambda: G.drive(alist(a.chain.from_iterable(tuple(lists)))), lambda: list(itertools.chain.from_iterable(tuple(lists))))
+            both("chain.from_iterable(iterator) %r" % (lists,), "chain:from_iterable",
+                 lambda: G.drive(alist(a.chain.from_iterable(iter(lists)))), lambda: list(itertools.chain.from_iterable(iter(lists))))
+        for _ in range(60):
+            n = rr.choice([2, 3, 4])
+            items = list(range(rr.randrange(0, 6)))
+            ops = []
+            closed = set()
+            for _ in range(rr.randrange(1, 14)):
+                i = rr.randrange(n)
+                if rr.random() < 0.15:
+                    ops.append(("close", i))
+                    closed.add(i)
+                elif i not in closed:
+                    ops.append(("next", i))
+
+            def tee_async():
+                async def go():
+                    t = a.tee(items, n)
+                    out = [[] for _ in range(n)]
+                    for op, i in ops:
+                        if op == "close":
+                            await t[i].aclose()
+                        else:
+                            try:
+                                out[i].append(await a.anext(t[i]))
+                            except StopAsyncIteration:
+                                out[i].append("stop")
+                    return out
+                return G.drive(go())
+
+            def tee_sync():
+                t = itertools.tee(items, n)
+                out = [[] for _ in range(n)]
+                for op, i in ops:
+                    if op == "next":
+                        try:
+                            out[i].append(next(t[i]))
+                        except StopIteration:
+                            out[i].append("stop")
+                return out
+            both("tee children %r %r" % (items, ops), "tee:children", tee_async, tee_sync)
+        both("anext default", "anext:default", lambda: G.drive(a.anext(a.iter([]), "d")), lambda: next(iter([]), "d"))
+        both("anext", "anext:default", lambda: G.drive(a.anext(a.iter([4]))), lambda: next(iter([4])))
+        both("anext exhausted", "anext:default", lambda: G.drive(a.anext(a.iter([]))), lambda: _stop_as_async(lambda: next(iter([]))))
+        both("iter(non-callable, sentinel)", "iter:misuse", lambda: a.iter(3, 4), lambda: iter(3, 4))
         both("accumulate(initial=None)", "accumulate:initial=None-object",
              lambda: G.drive(alist(a.accumulate([1, 2, 3], initial=None))), lambda: list(itertools.accumulate([1, 2, 3], initial=None)))
         both("accumulate(initial=0)", "accumulate:initial",
@@ -340,6 +392,13 @@ def direct_probes(prop, rep):
         both("min empty", "min:empty", lambda: G.drive(a.min([])), lambda: builtins.min([]))
 
 
+def _stop_as_async(f):
+    try:
+        return f()
+    except StopIteration:
+        raise StopAsyncIteration
+
+
 def check_values(prop, tier, seed, tools):
     """C01 (iterator tools) and C02 (aggregations)."""
     rep = Report(prop, tier, seed)
@@ -347,6 +406,13 @@ def check_values(prop, tier, seed, tools):
     rng = random.Random(seed)
     per = 90 * common.scale(rep) if tier == "quick" else 1200
     cases = load_corpus(prop) + gen_cases(rng, tools, per, tier, mixed=True)
+    if tier != "quick":
+        nex = 0
+        for name in tools:
+            ex = list(exhaustive_cases(name))
+            nex += len(ex)
+            cases += ex
+        rep.notes["bounded_exhaustive_cases"] = nex
     pairs, fails = [], 0
     std_pairs = []
     dist = {}
@@ -416,6 +482,13 @@ def check_C05(tier, seed):
     per = 40 * common.scale(rep) if tier == "quick" else 500
     tools = [t for t in ITER_TOOLS] + ["all", "any"]
     cases = load_corpus("C05") + gen_cases(rng, tools, per, tier)
+    if tier != "quick":
+        nex = 0
+        for name in tools:
+            ex = list(exhaustive_cases(name, maxlen=3))
+            nex += len(ex)
+            cases += ex
+        rep.notes["bounded_exhaustive_cases"] = nex
     pairs, fails = [], 0
     std_pairs = []
     for c in cases:
@@ -478,6 +551,7 @@ def check_faults(prop, tier, seed):
         if prop == "C04":
             plans += [(k, ("GenExit",)) for k, kind in enumerate(uk) if kind == "yield"]
             plans += [(k, ("inj", 7, False)) for k, kind in enumerate(uk) if kind in ("pull", "call", "close", "yield")]
+            plans += [(k, ("inj", 8, True)) for k, kind in enumerate(uk) if kind == "close"]      # a cleanup that is itself interrupted
             if r0.get("unraisable"):
                 fails += 1
                 rep.violation(sig(c, "unraisable"), {"case": encode_case(c), "why": "exception in an un-awaited finaliser: %r" % (r0["unraisable"][:2],)})
